@@ -36,7 +36,7 @@ fn prefix_corruptions(w2: &crate::w2::W2Prog) -> Vec<Item> {
     v
 }
 
-const WORLD_DIMS: &[&str] = &["rand", "cwd_name", "rel", "file_name", "spelling", "stdout", "merged", "flock", "script_mode"];
+const WORLD_DIMS: &[&str] = &["rand", "cwd_name", "rel", "file_name", "spelling", "stdout", "merged", "flock", "script_mode", "env_kind"];
 
 fn pick_program(ctx: &Ctx, rng: &mut Rng) -> programs::Picked {
     match rng.below(10) {
